@@ -381,6 +381,86 @@ func checkC02(c *Ctx, r *Report) {
 			}
 		}
 		r7.Check(ok, "(*pskConn).Write: sends XORKeyStream(out, in) with len(out) == len(in) and reports the wire's count", f.Pos(), 3, "", "plaintext (or a buffer of another length) goes on the wire", "")
+		// the cipher state of each direction exists only once its nonce has really crossed the wire: the remote derives
+		// its keystream from the first 24 bytes it reads, so a stream set up although the nonce write (read) failed
+		// desynchronises both sides silently. Wherever the store is (Read/Write or a helper):
+		nS20 := 0
+		for _, f := range c.FnsOfPkg("p2p/net/pnet") {
+			for _, dir := range []struct{ field, what string }{{"writeS20", "written"}, {"readS20", "read"}} {
+				for _, st := range findInstrs(f, fieldWritePred(pskT+"."+dir.field)) {
+					nS20++
+					mk := isResultOfCall(st.(*ssa.Store).Val, 0, "github.com/davidlazar/go-crypto/salsa20.New")
+					key := fnKey(f) + ": " + dir.field + " installed only after its nonce was " + dir.what
+					if mk == nil {
+						r7.Fail(key, instrPos(st), "the cipher state is not salsa20.New(psk, nonce)", "")
+						continue
+					}
+					nonce := strip(mk.Common().Args[1])
+					isNonce := func(v ssa.Value) bool { return strip(v) == nonce }
+					var wire EdgePred
+					if dir.field == "writeS20" {
+						wire = edgeNil(func(v ssa.Value) bool {
+							ci, i := resultOf(v)
+							return ci != nil && i == 1 && ci.Common().IsInvoke() && ci.Common().Method.Name() == "Write" && isNonce(ci.Common().Args[0])
+						}, true)
+					} else {
+						wire = edgeNil(func(v ssa.Value) bool {
+							ci := isResultOfCall(v, 1, "io.ReadFull")
+							return ci != nil && isNonce(ci.Common().Args[1])
+						}, true)
+					}
+					w, n := (&Cut{Fn: f, Target: isInstr(st), EdgeCut: wire}).Run(c)
+					r7.Check(w == "", key, instrPos(st), n+1, "", "after a failed nonce transfer a retry skips the nonce: the remote takes ciphertext for the nonce and decrypts garbage without any error", w)
+				}
+			}
+		}
+		r7.Check(nS20 >= 2, "pskConn: cipher states of both directions are installed somewhere", token.NoPos, nS20, "", "", "")
+
+		// ---- R9 ---------------------------------------------------------------
+		// pass-through wrappers report the inner count unchanged, also together with an error (io.Reader / io.Writer
+		// allow n > 0 with err != nil; a caller that resumes from the reported count re-sends or drops bytes otherwise)
+		r9 := r.Rule("C02-R9", "E6", 6, "stream wrappers (yamux stream, swarm.Stream, basic host streamWrapper): Read and Write return the inner call's byte count on every path")
+		for _, k := range []string{"(*p2p/muxer/yamux.stream)", "(*p2p/net/swarm.Stream)", "(*p2p/host/basic.streamWrapper)"} {
+			for _, m := range []string{"Read", "Write"} {
+				f := r9.need(k + "." + m)
+				if f == nil {
+					continue
+				}
+				var inner []ssa.CallInstruction
+				allInstrs(f, func(in ssa.Instruction) {
+					ci, ok := in.(ssa.CallInstruction)
+					if !ok || len(f.Params) < 2 {
+						return
+					}
+					name := ""
+					if ci.Common().IsInvoke() {
+						name = ci.Common().Method.Name()
+					} else if sc := ci.Common().StaticCallee(); sc != nil {
+						name = sc.Name()
+					}
+					if name != m {
+						return
+					}
+					for _, a := range ci.Common().Args {
+						if strip(a) == ssa.Value(f.Params[1]) || isParamCellLoad(c, strip(a), f.Params[1]) {
+							inner = append(inner, ci)
+						}
+					}
+				})
+				if len(inner) != 1 {
+					r9.Fail(k+"."+m+": one inner "+m+" of the caller's buffer", f.Pos(), fmt.Sprintf("found %d", len(inner)), "")
+					continue
+				}
+				for _, ret := range returnsOf(f) {
+					// exits that cannot follow the inner call (argument checks) are not pass-through exits
+					if w, _ := (&Cut{Fn: f, From: []ssa.Instruction{inner[0].(ssa.Instruction)}, Target: isInstr(ret)}).Run(c); w == "" {
+						continue
+					}
+					ci, i := resultOf(retVal(ret, 0))
+					r9.Check(ci == inner[0] && i == 0, k+"."+m+": returns the inner count", instrPos(ret), 1, "", "a partial "+strings.ToLower(m)+" reported as 0 (or as another count): the caller re-sends delivered bytes or loses received ones", describeVal(retVal(ret, 0)))
+				}
+			}
+		}
 	}
 }
 
